@@ -54,6 +54,14 @@ def sources(tier, seed, ctx):
                 srcs.append({'fn': 'generate_sum_n_bits', 'n': n, 'basis': k, 'spelled': rng.choice(SPELL[k]), 'big': big})
                 srcs.append({'fn': 'add_sum_n_bits', 'n': n, 'basis': k, 'spelled': rng.choice(SPELL[k]), 'big': big,
                              'host': {'seed': rng.randrange(10**6), 'ni': rng.randint(2, 4), 'ng': rng.randint(2, 6)} if n % 2 else None})
+    # the exported building blocks: the ~5n bit counter and the half / full adder cells
+    for n in range(1, (8 if tier == 'quick' else 11) + 1):
+        for big in (False, True):
+            srcs.append({'fn': 'add_sum_n_bits_easy', 'n': n, 'big': big,
+                         'host': {'seed': rng.randrange(10**6), 'ni': rng.randint(2, 4), 'ng': rng.randint(2, 6)} if (n + big) % 3 == 0 else None})
+    for n in (2, 3):
+        for j in range(4):
+            srcs.append({'fn': f'add_sum{n}', 'n': n, 'host': {'seed': rng.randrange(10**6), 'ni': 3, 'ng': rng.randint(2, 5)} if j else None})
     for n in ([13, 17, 24, 31, 40] if tier == 'quick' else [13, 15, 16, 17, 20, 24, 28, 31, 32, 33, 36, 40]):
         k, sp = bs()
         srcs.append({'fn': 'add_sum_n_bits', 'n': n, 'basis': k, 'spelled': sp, 'big': bool(n % 2), 'host': None})
@@ -127,6 +135,17 @@ def record(src):
             bound = (5 * n - 2 * m) if src['basis'] == 'XAIG' else (7 * n - 3 * m)
             case['algo'] = {'op': 'popcount', 'a': A.le(list(ops), big), 'basis': src['basis'], 'out': out}
             return A.finish(case, c, pre, rng, res, checks, 'same', [], src['basis'], bound)
+        if fn in ('add_sum_n_bits_easy', 'add_sum2', 'add_sum3'):
+            n, big = src['n'], src.get('big', False)
+            c, ops = A.make_host(src, n)
+            pre = project(c)
+            if fn == 'add_sum_n_bits_easy':
+                res = ar.add_sum_n_bits_easy(c, list(ops), big_endian=big)
+            else:
+                res = getattr(ar, fn)(c, list(ops))
+            out = A.le(res, big)
+            checks = [{'op': 'wsum', 'ins': [[0, l] for l in ops], 'outs': [[j, l] for j, l in enumerate(out)]}]
+            return A.finish(case, c, pre, rng, res, checks, 'same', [])
         if fn.startswith('generate_wsum') or fn.startswith('add_wsum'):
             ws = src['weights']
             n = len(ws)
